@@ -230,6 +230,11 @@ package http3
 //@   modifies *headerFields, elems(qpack.HeaderField)
 
 //@ func updateResponseFromHeaders
+//@   props C18 C19
+//@   requires sizeLimit >= 0 && rsp != nil
+//@   ensures [declared-length-or-minus-one] implies(result == nil, rsp.ContentLength >= -1 && rsp.ProtoMajor == 3)
+//@   modifies *headerFields, elems(qpack.HeaderField), rsp.*
+//@ func updateResponseFromHeaders#impl
 //@   props C19
 //@   requires sizeLimit >= 0 && rsp != nil
 //@   let h = lastresult("parseHeaders", 0)
@@ -284,3 +289,20 @@ package http3
 //@   ensures [does-not-retain-the-callers-buffer] len(w.smallResponseBuf) == 0 || separate(w.smallResponseBuf, p)
 //@   ensures [buffered-or-written] implies(result1 == nil && called("(*responseWriter).doWrite") == 0, result0 == len(p))
 //@   modifies w.status, w.headerComplete, w.contentLen, w.numWritten, w.headerWritten, w.smallResponseBuf, w.smallResponseBuf[*], w.buf, w.buf[*]
+
+// ReadResponse (client): the response body is policed against the Content-Length the server DECLARED (-1 when it declared
+// none) — not against the value net/http's conventions later put into Response.ContentLength (0 for 1xx, 204 and a
+// successful CONNECT), which would turn every byte of a CONNECT tunnel into "body longer than declared" (C18).
+//@ func (s *RequestStream) ReadResponse
+//@   props C18
+//@   requires s.str != nil && s.response != nil && s.decoder != nil && s.str.frameParser != nil && s.str.frameParser.r != nil && s.maxHeaderBytes >= 0
+//@   opt cutafter newResponseBody
+//@   ensures [body-limit-is-the-declared-content-length] implies(called("newResponseBody") >= 1, called("updateResponseFromHeaders") == 1 && callarg("newResponseBody", 0, 1) == aftercall("updateResponseFromHeaders", 0, s.response.ContentLength))
+//@   modifies everything
+//@ func qlogParsedHeadersFrame
+//@   trusted qlog only
+//@   modifies nothing
+//@ func newResponseBody
+//@   props C18
+//@   ensures [limit-recorded] result != nil && result.body.hasContentLength == (contentLength >= 0) && implies(contentLength >= 0, result.body.remainingContentLength == contentLength) && !result.body.violatedContentLength
+//@   modifies nothing
